@@ -23,6 +23,7 @@ structure Decl where
   nops : Nat
   defId : Nat
   refs : List Ty
+  resolved : List Bool
 
 structure St where
   decls : List Decl := []
@@ -48,7 +49,7 @@ def kv (w : String) (k : String) : Option String :=
 
 def parseDecl (ws : List String) : Option Decl :=
   match ws with
-  | [id, subs, prim, join, proc, nops, defId, refs] => do
+  | [id, subs, prim, join, proc, nops, defId, refs, res] => do
     pure { name := ← id.toNat?
            subs := ← parseNats (← kv subs "subs")
            prim := ← parseNats (← kv prim "prim")
@@ -56,7 +57,8 @@ def parseDecl (ws : List String) : Option Decl :=
            hasProcess := (← kv proc "proc") == "1"
            nops := ← (← kv nops "nops").toNat?
            defId := ← (← kv defId "def").toNat?
-           refs := ← parseNats (← kv refs "refs") }
+           refs := ← parseNats (← kv refs "refs")
+           resolved := (← parseNats (← kv res "res")).map (· == 1) }
   | _ => none
 
 /-- `s@d:in>outs|emitted` -/
@@ -87,7 +89,7 @@ def respOf (calls : List Call) (s : Ty) (skip : Nat) : List Ev → Ev → Res :=
 
 def mkDef (calls : List Call) (skip : Ty → Nat) (d : Decl) : SDef :=
   { name := d.name, subs := d.subs, prim := d.prim, isJoin := d.isJoin, hasProcess := d.hasProcess,
-    nops := d.nops, defId := d.defId, refs := d.refs, resp := respOf calls d.name (skip d.name) }
+    nops := d.nops, defId := d.defId, refs := d.refs, resolved := d.resolved, resp := respOf calls d.name (skip d.name) }
 
 def chunks (evs : List Ev) : List Nat → List (List Ev)
   | [] => []
@@ -138,6 +140,18 @@ def reloadDefs (st : St) : List SDef × List SDef :=
   let post := (st.traces.lookup "post").getD []
   (st.decls.map (mkDef (pre ++ post) (fun _ => 0)), st.decls2.map (mkDef post (fun _ => 0)))
 
+/-- `gate`: every entry point must take the same late-data decisions (admit / drop / divert) -/
+def judgeGate (impl : String) : String :=
+  let parts := (impl.splitOn " / ").map fun p => match p.splitOn "=" with
+    | [n, o] => (n, o)
+    | _ => ("?", p)
+  match parts with
+  | [] => "BADLINE"
+  | (_, o0) :: rest =>
+    match rest.find? (fun p => p.2 != o0) with
+    | none => "ok"
+    | some (n, _) => s!"JUDGE C16 entry point '{n}' admits / drops other events (late-data gate) than the per-event path"
+
 def step (st : St) (line : String) : St × String :=
   let (op, impl?) := splitCase line
   let impl := impl?.getD ""
@@ -158,6 +172,8 @@ def step (st : St) (line : String) : St × String :=
     let E := load (st.decls.map (mkDef [] (fun _ => 0)))
     (st, verdict (fmtRouter E.router) impl)
   | ["agree", _] => (st, judgeAgree impl)
+  | ["gate", _] => (st, judgeGate impl)
+  | ["gatepost", _, _] => (st, judgeEqual impl "C23 after the reload the late-data gate does not decide like a fresh engine of the new program (left: reloaded, right: fresh)")
   | ["rrouter"] =>
     let (d1, d2) := reloadDefs st
     (st, verdict (fmtRouter (reload (load d1) d2).router) impl)
